@@ -1151,3 +1151,66 @@ ASSUMPTIONS = [
     "calendar; values never cross calendars",
     "sampling, not enumeration: a clean batch is evidence, not proof",
 ]
+
+
+def crosscheck(seed, n=60, workers=16):
+    """Thorough tier: bound the 'fresh process = fork of the post-import
+    orchestrator' assumption.  For n random traces every client's solo
+    history is executed again in a SPAWNED fresh interpreter (cold start:
+    imports included) and compared with the forked solo run."""
+    import json
+    import os
+    import subprocess
+    import sys
+    import tempfile
+    jobs = [("random", seed, i) for i in range(n)]
+
+    def one(job):
+        trace = make_trace(job)
+        used = sorted(set(st["c"] for st in trace["steps"]
+                          if st["k"] == "op"))
+        fd, path = tempfile.mkstemp(prefix="verif-solo-", suffix=".json")
+        with os.fdopen(fd, "w") as out:
+            json.dump(trace, out)
+        bad = []
+        try:
+            for cid in used:
+                forked = kernel.in_fresh_fork(execute, (trace, cid))
+                proc = subprocess.run(
+                    [sys.executable,
+                     os.path.join(kernel.VERIF_DIR, "check.py"), "_solo",
+                     path, str(cid)],
+                    capture_output=True, text=True, timeout=600,
+                    env=dict(os.environ, VERIF_REPO=kernel.REPO))
+                line = [ln for ln in proc.stdout.splitlines()
+                        if ln.startswith("SOLO ")]
+                if not line:
+                    raise kernel.HarnessError(
+                        "spawned solo run failed: " + proc.stderr[-300:])
+                spawned = json.loads(line[0][5:])
+                want = json.loads(json.dumps(forked["transcripts"][cid]))
+                if spawned != want:
+                    bad.append({"job": list(job), "client": cid})
+        finally:
+            os.remove(path)
+        return {"index": job[2], "counters": {"compared": len(used)},
+                "violations": bad}
+
+    class _W(object):
+        run_job = staticmethod(one)
+    agg = kernel.run_batch(_W, jobs, workers, 3600)
+    if agg.harness_errors:
+        raise kernel.HarnessError("; ".join(agg.harness_errors[:3]))
+    return {"spawn_crosscheck_solo_histories": agg.counters.get(
+        "compared", 0), "spawn_crosscheck_mismatches": agg.violations}
+
+
+def solo_main(path, cid):
+    """Entry for the spawned interpreter of crosscheck()."""
+    import json
+    with open(path) as inp:
+        trace = json.load(inp)
+    kernel.arm_alarm()
+    res = execute(trace, cid)
+    print("SOLO " + json.dumps(res["transcripts"][cid]))
+    return 0
